@@ -23,7 +23,7 @@ CACHE = os.path.join(ROOT, ".cache", "sweep")
 
 CLAUSE_PROPERTY = {
     "StoreObs": "C01", "StoreAct": "C01", "StoreReward": "C01", "StoreNext": "C01", "StoreTerm": "C01", "StoredNotProduced": "C01",
-    "StoreTrunc": "C01", "LearnerOnCurrentEstimate": "C14", "InnerCallStart": "C11", "InnerReturnedCount": "C11",
+    "StoreTrunc": "C01", "FinalBufferFaithful": "C01", "LearnerOnCurrentEstimate": "C14", "InnerCallStart": "C11", "InnerReturnedCount": "C11",
     "CondFaithful": "C01", "ExploredActionPassed": "C01", "ChosenActionPassed": "C01", "ActionWithoutChoice": "C01",
     "ActionInBounds": "C10",
     "NoStepAfterEnd": "C11", "BudgetRespected": "C11", "StopsAtEpisodeLimit": "C11", "NoLearnBeforeWarmup": "C11", "ReturnedCount": "C11",
